@@ -605,3 +605,201 @@ def sources_cell(P, A):
     finally:
         shutil.rmtree(tmp, ignore_errors=True)
     return sig is None
+
+
+# ---------------------------------------------------------------------------------------
+# C19 - command line
+# ---------------------------------------------------------------------------------------
+
+FILE_KINDS = ['roCreate', 'roCreate-completed', 'roStoryMove', 'roDelete', 'roStorySend', 'roElementAction',
+              'roReplace', 'roMetadataReplace', 'unknown-xml', 'malformed', 'missing', 'directory']
+VALID_CLASS = {'roCreate': 'RunningOrder', 'roCreate-completed': 'RunningOrder (completed)', 'roStoryMove': 'StoryMove',
+               'roDelete': 'RunningOrderEnd', 'roStorySend': 'StorySend', 'roElementAction': 'EAStorySwap',
+               'roReplace': 'RunningOrderReplace', 'roMetadataReplace': 'MetaDataReplace'}
+
+
+def file_of_kind(W, kind, i, mid=None):
+    mid = mid or str(10 + i)
+    name = 'f%d_%s.mos.xml' % (i, kind)
+    if kind in ('unknown-xml', 'malformed', 'missing', 'directory'):
+        return W.bad_file(kind, name=name)
+    if kind == 'roCreate':
+        b = ro_builder(['a', 'b', 'c'], mid)
+    elif kind == 'roCreate-completed':
+        def b():
+            root = ro_builder(['a', 'b'], mid)()
+            root.append(E('mosromgrmeta', E('roDelete', T('roID', 'RO'))))
+            return root
+    elif kind == 'roElementAction':
+        b = msg_builder('EAStorySwap', 'a', mid)
+    elif kind == 'roReplace':
+        b = lambda: B.raw(lambda: M.ro_replace([T('roSlug', 'new'), T('roEdStart', None), B.story('n', slug='s')], msg_id=mid))
+    else:
+        b = msg_builder(kind, 'a', mid, new_id='n')
+    return W.doc(b, kind='file', name=name)
+
+
+class Capture:
+    """stdout/stderr of one CLI call.  print() of the cli and mostypes modules is recorded (stub S5/S7)."""
+
+    def __init__(self, W):
+        self.W = W
+        self.prints = []      # tuples of printed objects (cli module)
+        self.inspect_prints = []
+        self.err = io.StringIO()
+        self.written = {}
+
+    def __enter__(self):
+        cli, mt = self.W.cli, self.W.mt
+        cap = self
+        self._old = (cli.__dict__.get('print'), mt.__dict__.get('print'), cli.__dict__.get('open'), sys.stderr)
+        cli.print = lambda *a, **k: cap.prints.append(a)
+        mt.print = lambda *a, **k: cap.inspect_prints.append(a)
+        if not self.W.replay:
+            class F:
+                def __init__(s, name):
+                    s.name = name
+                    cap.written[name] = ''
+
+                def write(s, data):
+                    cap.written[s.name] += data
+
+                def __enter__(s):
+                    return s
+
+                def __exit__(s, *a):
+                    return False
+
+            def fake_open(name, mode='r', *a, **k):
+                if 'w' not in mode:
+                    raise OSError('read not modelled')
+                if str(name).endswith('/nodir/out.xml'):
+                    raise FileNotFoundError(2, 'No such file or directory', name)
+                return F(str(name))
+            cli.open = fake_open
+        sys.stderr = self.err
+        return self
+
+    def __exit__(self, *a):
+        cli, mt = self.W.cli, self.W.mt
+        sys.stderr = self._old[3]
+        for mod, name, old in ((cli, 'print', self._old[0]), (mt, 'print', self._old[1]), (cli, 'open', self._old[2])):
+            if old is None:
+                mod.__dict__.pop(name, None)
+            else:
+                setattr(mod, name, old)
+        return False
+
+
+import io  # noqa: E402
+
+
+def cli_list_cell(P, A):
+    """detect / inspect: every listed file, in order, gets its class (with '(completed)') or is marked
+    invalid, and one bad or unreadable file never prevents the others from being processed."""
+    cmd = P['cmd']
+    n = P['n']
+    kinds = [FILE_KINDS[A['k%d' % i]] for i in range(n)]
+    sig = None
+    with World() as W:
+        paths = [file_of_kind(W, k, i) for i, k in enumerate(kinds)]
+        with Capture(W) as cap:
+            out = call(lambda: W.cli.main([cmd, '-f'] + paths), W.exc)
+        B.hit()
+        records = [a[0] for a in cap.prints if len(a) == 1 and isinstance(a[0], str) and ': ' in a[0]]
+        want = ['%s: %s' % (p, VALID_CLASS[k]) for p, k in zip(paths, kinds) if k in VALID_CLASS]
+        err = cap.err.getvalue()
+        if out.raised:
+            sig = 'raised-' + type(out.exc).__name__
+        elif records != want:
+            sig = 'files-not-all-reported-in-order'
+        else:
+            for p, k in zip(paths, kinds):
+                if k not in VALID_CLASS and p not in err:
+                    sig = 'invalid-file-not-marked'
+            if sig is None and cmd == 'inspect' and out.result == 2:
+                sig = 'inspect-aborted'
+            if sig is None and all(k in VALID_CLASS for k in kinds) and (out.result is not None or err):
+                sig = 'error-reported-for-valid-files'
+        if B.Ctx.replay:
+            B.note(sig=sig, observed={'stdout': records, 'stderr': err, 'returned': out.result, 'raised': B.conc(out.exc)},
+                   expected={'stdout': want}, kinds=kinds)
+    return sig is None
+
+
+SCENARIOS = {
+    'complete': ['roCreate', 'roStoryMove', 'roStorySend', 'roDelete'],
+    'incomplete': ['roCreate', 'roStoryMove', 'roStorySend'],
+    'after-delete': ['roCreate', 'roDelete', 'roStoryMove@50'],
+    'failing': ['roCreate', 'roStoryMove!', 'roStorySend', 'roDelete'],
+    'failing-incomplete': ['roCreate', 'roStorySend', 'roStoryMove!'],
+    'no-rocreate': ['roStoryMove', 'roDelete'],
+    'two-rocreate': ['roCreate', 'roCreate', 'roDelete'],
+    'malformed-file': ['roCreate', 'malformed', 'roDelete'],
+    'missing-file': ['roCreate', 'missing', 'roDelete'],
+    'unknown-xml': ['roCreate', 'unknown-xml', 'roDelete'],
+    'reversed': ['roDelete@30', 'roStorySend@20', 'roCreate@5'],
+}
+
+
+def cli_merge_cell(P, A):
+    """merge writes exactly the serialisation of the library's merged collection, honours --incomplete
+    and --non-strict exactly as the library flags, exits 0 on success and 2 with a message on any error."""
+    scen = SCENARIOS[P['scenario']]
+    inc, nonstrict = bool(A['inc']), bool(A['ns'])
+    outmode = P.get('out', 'stdout')     # stdout | file | bad-dir
+    sig = None
+    with World() as W:
+        paths = []
+        for i, spec in enumerate(scen):
+            kind, _, mid = spec.partition('@')
+            if kind.endswith('!'):
+                paths.append(W.doc(msg_builder(kind[:-1], 'zz-unknown', mid or str(10 + i)), kind='file'))
+            else:
+                paths.append(file_of_kind(W, kind, i, mid=mid or None))
+        # the library, directly, with the same flags
+        def lib():
+            mc = W.mc.MosCollection.from_files(paths, allow_incomplete=inc)
+            mc.merge(strict=not nonstrict)
+            return str(mc)
+        ref = call(lib, W.exc)
+        argv = ['merge', '-f'] + paths
+        if inc:
+            argv.append('--incomplete')
+        if nonstrict:
+            argv.append('-n')
+        outfile = None
+        if outmode != 'stdout':
+            outfile = ('/virtual/out.xml' if outmode == 'file' else '/virtual/nodir/out.xml') if not W.replay else \
+                os.path.join(W._tmpdir(), 'out.xml' if outmode == 'file' else 'nodir/out.xml')
+            argv += ['-o', outfile]
+        with Capture(W) as cap:
+            out = call(lambda: W.cli.main(argv), W.exc)
+        B.hit()
+        err = cap.err.getvalue()
+        if outfile and outmode == 'file' and W.replay and os.path.exists(outfile):
+            cap.written[outfile] = open(outfile).read()
+        if out.raised:
+            sig = 'raised-' + type(out.exc).__name__
+        elif ref.raised or outmode == 'bad-dir':
+            if out.result != 2:
+                sig = 'error-but-exit-status-%r' % (out.result,)
+            elif not err:
+                sig = 'error-without-message'
+            elif any(len(a) == 1 and not isinstance(a[0], str) for a in cap.prints) or \
+                    (outmode == 'file' and cap.written.get(outfile)):
+                sig = 'output-written-despite-error'
+        else:
+            if out.result is not None:
+                sig = 'success-but-exit-status-%r' % (out.result,)
+            elif outmode == 'stdout':
+                objs = [a[0] for a in cap.prints if len(a) == 1]
+                if len(objs) != 1 or str(objs[0]) != ref.result:
+                    sig = 'stdout-differs-from-library-result'
+            else:
+                if cap.written.get(outfile) != ref.result:
+                    sig = 'outfile-differs-from-library-result'
+        if B.Ctx.replay:
+            B.note(sig=sig, observed={'returned': out.result, 'stderr': err, 'raised': B.conc(out.exc)},
+                   expected={'library': B.conc(ref.exc) if ref.raised else 'ok'}, argv=argv)
+    return sig is None
